@@ -242,6 +242,24 @@ func (w *World) NormalizeNS() *World {
 			c.WLs[i].NS = "default"
 		}
 	}
+	c.Svcs = append([]Svc{}, w.Svcs...)
+	for i := range c.Svcs {
+		if c.Svcs[i].NS == "" {
+			c.Svcs[i].NS = "default"
+		}
+	}
+	c.Ings = append([]Ing{}, w.Ings...)
+	for i := range c.Ings {
+		if c.Ings[i].NS == "" {
+			c.Ings[i].NS = "default"
+		}
+	}
+	c.Routes = append([]Route{}, w.Routes...)
+	for i := range c.Routes {
+		if c.Routes[i].NS == "" {
+			c.Routes[i].NS = "default"
+		}
+	}
 	return &c
 }
 
